@@ -1,0 +1,62 @@
+//go:build verif
+
+// Hooks for the external verification harness (/verif). Compiled only with
+// `-tags verif`. They add no behaviour: they only expose what gateway_test.go
+// already does from inside the package (newHandler + mockupDialFunc + run).
+
+package gateway
+
+import (
+	"context"
+	"net"
+	"time"
+
+	"github.com/energomonitor/bisquitt/topics"
+	"github.com/energomonitor/bisquitt/util"
+)
+
+// VerifSessionConfig mirrors the unexported handlerConfig.
+type VerifSessionConfig struct {
+	MqttBrokerAddress     *net.TCPAddr
+	MqttConnectionTimeout time.Duration
+	MqttUser              *string
+	MqttPassword          []byte
+	AuthEnabled           bool
+	RetryDelay            time.Duration
+	RetryCount            uint
+}
+
+// VerifShared is a handlerConfig shared by several sessions, as in
+// Gateway.ListenAndServe.
+type VerifShared struct {
+	cfg *handlerConfig
+}
+
+func VerifNewShared(c VerifSessionConfig) *VerifShared {
+	return &VerifShared{cfg: &handlerConfig{
+		MqttBrokerAddress:     c.MqttBrokerAddress,
+		MqttConnectionTimeout: c.MqttConnectionTimeout,
+		MqttUser:              c.MqttUser,
+		MqttPassword:          c.MqttPassword,
+		AuthEnabled:           c.AuthEnabled,
+		RetryDelay:            c.RetryDelay,
+		RetryCount:            c.RetryCount,
+	}}
+}
+
+// VerifRunSession runs one gateway session (handler) on snConn until it ends.
+// If mqttConn is non-nil it is used instead of dialing the broker.
+// skipTopicIDs advances the session's own topic-ID sequence that many times
+// before the session starts: skipped IDs are simply never handed out.
+func VerifRunSession(ctx context.Context, shared *VerifShared,
+	predefined topics.PredefinedTopics, logger util.Logger,
+	snConn net.Conn, mqttConn net.Conn, skipTopicIDs int) {
+	h := newHandler(shared.cfg, predefined, logger)
+	if mqttConn != nil {
+		h.mockupDialFunc = func() net.Conn { return mqttConn }
+	}
+	for i := 0; i < skipTopicIDs; i++ {
+		h.topicID.Next()
+	}
+	h.run(ctx, snConn)
+}
